@@ -427,6 +427,11 @@ class Interp:
             return recv
         if name in ('new_full',) and len(args) == 2:
             return as_av(args[1], e).with_mode('tensor')
+        if name in ('any', 'all') and not args and not e.keywords and recv.cls and set(recv.cls) <= {'T', 'F'}:
+            # a whole-tensor test: the abstract value stands for one element among unknown others, so only the element that settles
+            # the reduction on its own gives a definite answer
+            settles = 'T' if name == 'any' else 'F'
+            return AV([settles] if set(recv.cls) == {settles} else ['T', 'F'], 'scalar')
         if name in ('any', 'all', 'sum', 'max', 'min', 'logsumexp'):
             raise Unsupported(e, 'reduction')
         raise Unsupported(e, f"tensor method {name}")
